@@ -217,9 +217,12 @@ PROPS['C13'] = dict(
 PROPS['C20'] = dict(
     id='C20', domains=['rev'],
     n=dict(quick=dict(rev=1500), thorough=dict(rev=60000)),
-    theorems=[('Properties.C20', [])],
+    theorems=[('Properties.C20', ['C20_revisit_is_truthful', 'C20_merge_restores_the_original'])],
     kinds={'panic', 'revisit-untruthful', 'revisit-roundtrip', 'merge-wrong', 'type-disagrees'},
-    rule='TODO', level_text='TODO', level_note='TODO',
+    rule='rev: HTTP request and response records built with all four digest algorithms x three encodings, both WARC versions, spill thresholds from 1 byte to above the record (original in memory or spilled), protocol headers up to 9 KB (beyond one bufio buffer), WARC-Date with and without sub-second part and zone offset, the four profiles: CreateRevisitRef, ToRevisitRecord, RevisitRef, marshal, strict re-parse, Merge (of the derived or of the re-parsed revisit); executable statement checks block = protocol header, truthful Content-Length and block digest (independent Go crypto), original payload digest, reference fields, strict round trip, merged block and length, Type() vs WARC-Type',
+    level_text='Proved in Coq for every record, reference, option setting and oracle behaviour: when ToRevisitRecord succeeds the revisit block is exactly the protocol header, Content-Length is its length, WARC-Block-Digest is the configured digest of exactly those bytes, the type is revisit in both places and the profile is the reference\'s (C20_revisit_is_truthful); merging the revisit with its original reproduces the original\'s block bytes, record type (in Type() and in WARC-Type) and Content-Length (C20_merge_restores_the_original). The strict round trip of the revisit is checked by the executable statement (it composes C01\'s stages). Model tied to record.go/revisitblock.go by differential runs over fields and blocks of the revisit and merged records.',
+    level_note='Trusted: Coq kernel, extraction, harness. Oracles: hash functions, classification of the profile URIs, Unicode case mapping. The field names involved are distinct canonical keys of the field table regenerated from /repo (finite check by vm_compute). Merge models the block digest field as the original\'s field value (equal to its computed digest for records the builder completed).',
+    assumptions=['the original was completed by the builder (its digest fields are the computed ones)'],
 )
 
 PROPS['C15'] = dict(
